@@ -294,6 +294,14 @@ func streamErsReconcile(r *rand.Rand, i int, tier string) *Case {
 	target := pick(r, w.ers...)
 	freq := 10 * time.Second
 	target.Status.Conditions = genErsConds(r, now, freq)
+	if r.Intn(2) == 0 { // stale counters and role from the previous sync
+		// ordered (0 <= available <= ready <= current <= desired), as every completed sync leaves them
+		v := []int{r.Intn(7), r.Intn(7), r.Intn(7), r.Intn(7)}
+		sort.Ints(v)
+		target.Status.Available, target.Status.Ready, target.Status.Current, target.Status.Desired = int32(v[0]), int32(v[1]), int32(v[2]), int32(v[3])
+		target.Status.IgnoredUnresponsiveNodes = int32(pick(r, 0, 1, 2, 5))
+		target.Status.Status = pick(r, "", "active", "canary", "unknown")
+	}
 	var objs []client.Object
 	objs = append(objs, w.eds)
 	for _, e := range w.ers {
